@@ -111,7 +111,15 @@ def _exp(a):
 
 def _tanh(a):
     t = math.tanh(a.v)
-    return _chain(a, t, 1.0 - t * t)
+    dv = 1.0 - t * t
+    p = _P
+    if p is not None:
+        # sensitivity(): the local derivative 1 - y^2 is the one place where a derivative *formula* cancels; a relative
+        # perturbation of y moves it by 2 y^2 delta in absolute terms (unbounded relative error near saturation)
+        if p['i'] == p['k']:
+            dv += 2.0 * t * t * p['delta']
+        p['i'] += 1
+    return _chain(a, t, dv)
 
 
 def _sqrt(a):
